@@ -501,6 +501,7 @@ def run(repo: Repo, ctx) -> None:
     _r7(repo, ctx, pm)
     _r8(repo, ctx, pm)
     _r9(repo, ctx, pm)
+    _r10(repo, ctx, pm)
 
 
 def _r7(repo: Repo, ctx, pm) -> None:
@@ -669,7 +670,7 @@ def _r9(repo: Repo, ctx, pm) -> None:
     for ever; the decision must come out the stated way whatever the other,
     unassumed quantities are."""
     from ..absint import Facts, closed_edges, open_nodes, open_returns
-    ctx.floor('C16.R9', 4)
+    ctx.floor('C16.R9', 2)
     sf = pm.repo.find_method(pm.pool.qualname, '_should_free_conn')
     if sf is None:
         raise AnalysisError('C16.R9: _should_free_conn not found')
@@ -706,68 +707,76 @@ def _r9(repo: Repo, ctx, pm) -> None:
         ctx.ob('C16.R9', f'_should_free_conn:{name}', vals == ['True'],
                f'under {facts} _should_free_conn can return {vals}: {why}',
                sf.loc, sample=f'{name}: returns True')
-    # the steal loop of the tick that enters starving mode
+    # (Two more facts were stated here at first -- the stealing loop of the
+    # tick runs whenever _should_free_conn allows it, and the waitlist scan
+    # never elects a block nobody waits on.  Since the tick re-examines the
+    # waitlist and steals on every starving tick (repo fix e7d5708) a wrong
+    # decision there is corrected a tick later: they are no longer necessary
+    # for eventual service, so they are not demanded any more; seeds C16-d1
+    # and C16-d3, which they were written for, became delays and are kept
+    # as obsolete.)
+
+
+def _r10(repo: Repo, ctx, pm) -> None:
+    """C16.R10 the periodic tick is the safety net for requests nobody else
+    will serve.  A database that asks while the pool is full is put on the
+    waitlist and waits for the next release(); when capacity is freed in
+    another way (a discarded / collected connection finishes closing, a
+    connect attempt gives up) or every connection is idle, no release is
+    coming.  Path facts on `_tick` (assumptions named, nothing evaluated):
+
+    (a) with free capacity and a non-empty waitlist, every path through the
+        tick that has acquirers looks at the waitlist (pops it) -- whatever
+        mode the tick decides it is in;
+    (b) in starving mode with a non-empty waitlist the stealing step runs on
+        every such tick, not only on the one that entered starving mode
+        (`_is_starving` stays set after a burst)."""
+    from ..absint import Facts, must_pass
+    ctx.floor('C16.R10', 2)
     tick = pm.repo.find_method(pm.pool.qualname, '_tick')
     if tick is None:
-        raise AnalysisError('C16.R9: _tick not found')
+        raise AnalysisError('C16.R10: _tick not found')
     ctx.saw(tick)
-    loops = [w for w in ast.walk(tick.node) if isinstance(w, ast.While)
-             and any(isinstance(c, ast.Call) and isinstance(
-                 c.func, ast.Attribute) and c.func.attr == 'try_steal'
-                 for c in ast.walk(w))]
-    if not loops:
-        raise AnalysisError('C16.R9: steal loop of _tick not found')
-    for w in loops:
-        blk = None
-        for c in ast.walk(w):
-            if isinstance(c, ast.Call) and isinstance(
-                    c.func, ast.Attribute) and c.func.attr == 'try_steal':
-                blk = norm(c.func.value)
-        fx = Facts({f'self._should_free_conn({blk})': True},
-                   fn_node=tick.node)
-        v = fx.eval(w.test)
-        ctx.ob('C16.R9', '_tick:steal-whenever-free-allowed', v is True,
-               f'on the tick that enters starving mode the steal loop runs '
-               f'under `{norm(w.test)[:80]}`: a block that '
-               f'_should_free_conn would let go can still be skipped, and '
-               f'since no release is coming (everything is idle) and '
-               f'rebalancing is off while starving, the waitlisted '
-               f'databases are blocked for ever',
-               f'{tick.module.rel()}:{w.lineno}',
-               sample=f'while _should_free_conn({blk})')
-    # the waitlist scan never elects a block nobody waits on
-    fm = pm.repo.find_method(pm.pool.qualname, '_find_most_starving_block')
-    if fm is None:
-        raise AnalysisError('C16.R9: _find_most_starving_block not found')
-    ctx.saw(fm)
-    g = CFG(fm.node)
-    wl = [w for w in ast.walk(fm.node) if isinstance(w, ast.While)
-          and '_new_blocks_waitlist' in norm(w.test)]
-    if len(wl) != 1:
-        raise AnalysisError('C16.R9: waitlist scan not found')
-    pops = [a for a in ast.walk(wl[0]) if isinstance(a, ast.Assign)
-            and 'popitem' in norm(a.value)]
-    if not pops:
-        raise AnalysisError('C16.R9: waitlist pop not found')
-    t0 = pops[0].targets[0]
-    bv = norm(t0.elts[0] if isinstance(t0, ast.Tuple) else t0)
-    elect = [n.id for n in g.nodes if n.kind == 'stmt' and isinstance(
-        n.ast, ast.Assign) and norm(n.ast.value) == bv and any(
-        n.ast is x for x in ast.walk(wl[0]))]
-    if not elect:
-        raise AnalysisError('C16.R9: election in the waitlist scan not found')
-    for name, facts, why in (
-            ('no-waiter', {f'{bv}.count_waiters()': False},
-             'a waitlist entry whose request has gone away (cancelled, '
-             'aborted) receives the released connection; in starving mode '
-             'it then sits idle in that block and every live request queued '
-             'behind the stale entry hangs'),
-            ('already-connected', {f'{bv}.count_conns()': True},
-             'a block that already has a connection is elected again and '
-             'the one that has none keeps waiting')):
-        fx = Facts(facts, fn_node=fm.node)
-        on = open_nodes(g, fx)
-        ctx.ob('C16.R9', f'_find_most_starving_block:waitlist-skips-{name}',
-               not (set(elect) & on),
-               f'under {facts} the waitlist scan still elects the block: '
-               f'{why}', fm.loc, sample=f'{name}: skipped')
+    g = CFG(tick.node)
+    pops = [n.id for n in g.nodes if n.kind == 'stmt' and n.ast is not None
+            and any(isinstance(c, ast.Call) and norm(c.func) ==
+                    'self._new_blocks_waitlist.popitem'
+                    for c in ast.walk(n.ast))]
+    facts = {'nblocks <= 1': False, 'len(self._blocks) <= 1': False,
+             'not total_nwaiters': False, 'total_nwaiters': True,
+             'self._new_blocks_waitlist': True,
+             'self._cur_capacity < self._max_capacity': True,
+             'self._cur_capacity >= self._max_capacity': False}
+    fx = Facts(facts, fn_node=tick.node)
+    ok = bool(pops) and must_pass(g, fx, pops)
+    ctx.ob('C16.R10', '_tick:free-capacity-serves-the-waitlist', ok,
+           'a tick that finds free capacity and a non-empty waitlist can '
+           'end without looking at the waitlist'
+           + ('' if pops else ' (it never does)') +
+           ': a database waitlisted while the pool was momentarily full '
+           'stays blocked after the slot is freed by a completed close or '
+           'an abandoned connect, because no release() is coming for it',
+           tick.loc, sample='while waitlist and cur < max: pop, connect')
+    # (b)
+    steal = [t for t in ast.walk(tick.node) if isinstance(t, ast.If) and any(
+        isinstance(w, ast.While) and any(
+            isinstance(c, ast.Call) and isinstance(c.func, ast.Attribute)
+            and c.func.attr == 'try_steal' for c in ast.walk(w))
+        for b in t.body for w in ast.walk(b))]
+    inner = [t for t in steal if not any(
+        o is not t and any(x is t for x in ast.walk(o)) and o in steal
+        for o in steal) or True]
+    # the innermost `if` that wraps the steal loops
+    inner.sort(key=lambda t: -t.lineno)
+    if not inner:
+        raise AnalysisError('C16.R10: stealing step of _tick not found')
+    gate = inner[0]
+    fx = Facts({'self._new_blocks_waitlist': True}, fn_node=tick.node)
+    v = fx.eval(gate.test)
+    ctx.ob('C16.R10', '_tick:starving-steal-on-every-tick', v is True,
+           f'the stealing step of starving mode runs under '
+           f'`{norm(gate.test)[:70]}`: `_is_starving` stays set after a '
+           f'burst, so requests for new databases that arrive later, when '
+           f'every connection sits idle in other blocks, are never given one',
+           f'{tick.module.rel()}:{gate.lineno}',
+           sample='if self._new_blocks_waitlist')
